@@ -126,7 +126,7 @@ def check(case, rec):
                     continue
                 raise Violation('call-raised', f'step {si}: reused function raised {type(e).__name__}: {str(e)[:200]} where a fresh one succeeds', where='call-raised:' + type(e).__name__)
             try:
-                fresh = _compile(target, cfg)({n: v.copy() for n, v in vals.items()})
+                fresh = _compile(target, cfg)({n: _pass(v, s['pass']) for n, v in vals.items()})   # same memory layout: summation order may depend on it
             except Exception as e:
                 raise Violation('fresh-raised', f'step {si}: fresh function raised {type(e).__name__}: {str(e)[:200]} where the reused one returned', where='fresh-raised')
             ncalls += 1
@@ -300,10 +300,16 @@ def _basis_step(case, rec, si, o, m, basis, fresh, nel, ndofs, res, jac, state):
             rec.label('scribbled-' + m)
 
 
-SUBS = [Sub('history', cases, check, {'quick': 1500, 'thorough': 12000}, weight=3, timeout=60),
+SUBS = [Sub('history', cases, check, {'quick': 1500, 'thorough': 12000}, weight=3, timeout=25),
         Sub('basis', basis_cases, check_basis, {'quick': 25, 'thorough': 300}, weight=1, timeout=120)]
 
-TRIGGERS = {}
+def _upstream_c01(case, v):
+    prog = case.get('prog', case)
+    ops = {n['op'] for n in prog['nodes']}
+    return 'diagonalize' in ops and bool(ops & {'inflate', 'take'})
+
+
+TRIGGERS = {'upstream-C01-inflate-diagonalize': _upstream_c01}
 
 MANIFEST = dict(
     category='exploration',
